@@ -17,6 +17,16 @@ Inductive outcome :=
 | Raise (k : raise_kind) (r : option rview)    (* ThreadException carries no result *)
 | OtherOutcome.                               (* any other exception, or an incomplete result *)
 
+(** The per-call keyword of a boolean run option: not passed at all, passed as
+    None ("no opinion here" -- what a wrapper forwarding an optional setting
+    passes), or passed with a value. *)
+Inductive kwopt := KwOmitted | KwNone | KwVal (b : bool).
+
+(** The two places warn can come from: the configuration (run.warn set by a
+    file / env / overrides / -w; [None] = configured nowhere, the stock
+    default applies) and the keyword of the call. *)
+Record warn_src := mkWs { ws_cfg : option bool; ws_kw : kwopt }.
+
 (** what happened inside Program.run and what it did about it *)
 Inductive prog_event :=
 | PSuccess
